@@ -358,11 +358,11 @@ META = {
         run_cap_s=900, shrink_tests=10, shrink_s=300,
     ),
     "C04": _m(
-        "S", "exploration", (15, 400), (1200, 5400),
+        "S", "exploration", (16, 400), (1200, 5400),
         "Each run = one exact-draw invariance experiment: per chain theta_0 ~ prior and y ~ p(y | theta_0) are drawn by the simulator's own "
         "numpy sampler, so (theta_0, y) is an exact joint draw and theta_0 an exact posterior draw given y; (theta_0, y) is put into the "
         "per-chain model state, k in {1, 3, 10, 25} transitions of the kernel (sequence) under test run in burn-in / posterior epochs "
-        "(tuning fixed) in 8192-16384 independent chains, and the law of (theta_k, y) is compared with that of (theta_0, y). The 15 slots "
+        "(tuning fixed) in 8192-16384 independent chains, and the law of (theta_k, y) is compared with that of (theta_0, y). The 16 slots "
         "cycle through RW, MH (asymmetric and independence proposals with declared corrections), IWLS (Hessian and user information), HMC, "
         "NUTS, a hand-written conjugate Gibbs kernel, sequences of 2-3 kernels over disjoint blocks on Gaussian / logistic / Poisson "
         "regressions (dict and Liesel graph versions), and NUTS / HMC / IWLS+RW / RW+Gibbs on a Liesel location-scale model whose variance "
